@@ -75,7 +75,7 @@ func checkC20(c *Ctx) {
 	var jobs []job
 	for _, nt := range ntCases(c.Pick(3, 4)) {
 		for _, sh := range []string{"plain", "adapted014", "interleaved"} {
-			for r := 0; r < c.Pick(1, 20); r++ {
+			for r := 0; r < c.Pick(3, 20); r++ {
 				jobs = append(jobs, job{nt.N, nt.T, sh, r})
 			}
 		}
